@@ -87,6 +87,19 @@ def norm(v):
     return out
 
 
+def strict_elems(xs):
+    """Starlark orders values of one type only (bool is not int; None is unordered)."""
+    xs = list(xs)
+    if len(xs) > 1:
+        for x in xs:
+            if x is None:
+                raise TypeError("NoneType is not ordered")
+        kinds = set(("bool" if isinstance(x, bool) else type(x).__name__) for x in xs)
+        if len(kinds) > 1:
+            raise TypeError("mixed types")
+    return xs
+
+
 def strict_int(x):
     # Starlark: bool is not an int
     if isinstance(x, bool):
@@ -140,6 +153,15 @@ def evaluate(c):
         elif name == "all":
             (a,) = args
             r = all(it(a))
+        elif name == "sorted":
+            (a,) = args
+            r = sorted(strict_elems(it(a)))
+        elif name in ("min", "max"):
+            f = min if name == "min" else max
+            if len(args) == 1:
+                r = f(strict_elems(it(args[0])))
+            else:
+                r = f(*strict_elems(args))
         else:
             raise ValueError(name)
     elif op == "bin":
@@ -147,6 +169,8 @@ def evaluate(c):
         y = args[0]
         if c["name"] == "+":
             r = x + y
+        elif c["name"] == "%":
+            r = x % y
         else:
             for z in (x, y):
                 if isinstance(z, bool) or isinstance(z, float):
